@@ -238,4 +238,5 @@ def harnesses(tier):
                 for c in (("h", (0,)), ("ry", (1,)), ("cz", (0, 1)), ("cx", (1, 0))):
                     for allow in (False, True):
                         cases.append(dict(n=2, program=[a, c, b], allow=allow))
-    return [("program", h_program, cases, dict(max_seconds=900))]
+    return [("program", h_program, cases, dict(max_seconds=900)),
+            ("program.raw", h_program, [c for c in cases if c["n"] == 2 and len(c["program"]) == 1][::5], dict(max_seconds=300, raw=True))]
